@@ -12,6 +12,7 @@ import (
 	"sort"
 	"strings"
 	"sync"
+	"sync/atomic"
 	"testing"
 
 	"github.com/ohler55/ojg"
@@ -190,7 +191,17 @@ var opKinds = []string{
 	"oj.json", "oj.marshal", "oj.write", "sen.string", "sen.bytes", "pretty.json", "pretty.sen",
 	"struct.oj.json", "struct.oj.marshal", "struct.sen.string", "struct.pretty", "struct.decompose", "named.oj.json", "named.decompose",
 	"alt.generify", "alt.alter", "alt.dup", "alt.recompose", "alt.recompose.cold",
-	"jp.get", "jp.first", "jp.has", "jp.set", "jp.del", "jp.modify", "jp.parse",
+	"jp.get", "jp.first", "jp.has", "jp.set", "jp.del", "jp.modify", "jp.parse", "jp.get.pattern",
+}
+
+var patternSerial atomic.Int64
+
+var patternExprs = []jp.Expr{
+	jp.MustParseString("$.list[?match(@.k, @.pat)].v"),
+	jp.MustParseString("$.list[?search(@.k, @.sub)].v"),
+	jp.MustParseString("$.list[?(match(@.k, 'key[0-2]') && search(@.k, @.sub))].v"),
+	jp.MustParseString("$.list[?(length(@.w) == 2 && count(@.w[*]) > 1 && search(@.k, 'y1'))].k"),
+	jp.MustParseString("$.list[?(@.k =~ @.pat)].v"),
 }
 
 // shared says which shared object class a call touches.
@@ -406,6 +417,21 @@ func (e *env) call(op Op) (res string, buf []byte) {
 		// needs for them - also for the struct reached through a map only - is there already
 		out, err := e.recCold.Recompose(canon.Copy(shelfData), &shelf{})
 		return fmt.Sprintf("%s %v", canon.String(out, canon.Value), err), nil
+	case "jp.get.pattern":
+		// filters that call match / search / length / count through shared expressions; the
+		// patterns come from the data and every call brings patterns nobody has used before
+		// (an alternative that matches nothing is appended), so whatever the library keeps
+		// per pattern is filled while others use it
+		px := patternExprs[op.X%len(patternExprs)]
+		u := patternSerial.Add(1)
+		list := make([]any, 0, 6)
+		for i := 0; i < 6; i++ {
+			list = append(list, map[string]any{
+				"k": fmt.Sprintf("key%d", (i+op.D)%4), "v": int64(i), "w": []any{int64(1), int64(i)},
+				"pat": fmt.Sprintf("k.y[%d-9]|never-%d-%d", i%3, u, i), "sub": fmt.Sprintf("y%d|never-%d-%d", i%2, u, i),
+			})
+		}
+		return canon.String(px.Get(map[string]any{"list": list}), canon.Typed), nil
 	case "jp.get":
 		return canon.String(sortedIfDescent(x, x.Get(tree())), canon.Typed), nil
 	case "jp.first":
